@@ -451,10 +451,19 @@ def script_blocks(g, n, prop, out):
                         for b in S:
                             b.offset += 4
                     elif batch == "discard-readd":
-                        for b in S:
-                            bi.blocks.discard(b)
+                        for i_, b in enumerate(S):
+                            if i_ % 2:
+                                bi.blocks.remove(b)
+                            else:
+                                bi.blocks.discard(b)
+                        need(all(b.byte_interval is None for b in S),
+                             "C04/scale:ends-disagree", where)
+                        half = S[:len(S) // 2]
+                        check_block_lookups(g, ir, bi, where + " (removed)",
+                                            prop) if n <= 45 else None
                         for b in S:
                             bi.blocks.add(b)
+                        del half
                     elif batch == "bulk-add":
                         new = [mk_child(g, "K", n + i) for i in range(k)]
                         bi.blocks.update(new)
@@ -852,6 +861,28 @@ def script_cfg(g, n, out):
         b = nodes[(i // len(nodes)) % len(nodes)]
         univ.append(g.Edge(a, b, labels[(i // (len(nodes) ** 2))
                                         % len(labels)]))
+    # parallel edges that differ only in the TYPE of their label coexist,
+    # for every member the enum declares (by name)
+    try:
+        names = list(g.Edge.Type.__members__)
+        ir0 = g.IR(uuid=U(990001))
+        for flags in ((False, True), (True, False)):
+            es = [g.Edge(nodes[0], nodes[1],
+                         g.Edge.Label(g.Edge.Type.__members__[nm], *flags))
+                  for nm in names]
+            ir0.cfg.clear()
+            ir0.cfg.update(es)
+            need(len(ir0.cfg) == len(names) and len(set(es)) == len(names),
+                 "C11/scale:edges-differing-only-in-label-type-coincide",
+                 "%d edge types by name, %d edges in the CFG"
+                 % (len(names), len(ir0.cfg)))
+            ir0.cfg.discard(es[-1])
+            need(len(ir0.cfg) == len(names) - 1 and all(
+                e in ir0.cfg for e in es[:-1]),
+                "C11/scale:edges-differing-only-in-label-type-coincide",
+                "discarding one removed another")
+    except Exception as e:  # noqa
+        out.append(("C11/scale:raises:%s" % type(e).__name__, repr(e)))
     univ = list(dict.fromkeys(univ))
     n = min(n, len(univ) - 1)
     base, spare = univ[:n], univ[n:]
@@ -1068,17 +1099,23 @@ def script_bytes(g, n, out):
     """contents of n pages worth of data followed by z zero bytes; block
     views, save + load"""
     steps = 0
-    for z in (0, 1, 4095, 4096, 4097, 8192, 12288):
-        for data_len in (0, 1, n, 4096, 4097):
+    for z, data_len, addr in [(z_, d_, 0x1000)
+                              for z_ in (0, 1, 4095, 4096, 4097, 8192, 12288)
+                              for d_ in (0, 1, n, 4096, 4097)] + [
+                                  (0, n, None), (4096, 1, None), (0, 0, None),
+                                  (0, n, 0)]:
+        if True:
             data = bytes((i * 31) % 255 + 1 for i in range(data_len))
             stored = data + bytes(z)
-            where = "bytes data=%d zeros=%d" % (data_len, z)
+            where = "bytes data=%d zeros=%d address=%r" % (data_len, z, addr)
             steps += 1
             try:
                 ir = g.IR(uuid=U(990001))
                 m = g.Module(name="m", uuid=U(990004), ir=ir)
                 s = g.Section(name="s", uuid=U(990005), module=m)
-                bi = g.ByteInterval(size=len(stored) + 4096, address=0x1000,
+                g.ByteInterval(size=4, address=0x10, uuid=U(990016),
+                               section=s)
+                bi = g.ByteInterval(size=len(stored) + 4096, address=addr,
                                     contents=stored, uuid=U(990006),
                                     section=s)
                 ks_ = [g.DataBlock(offset=o, size=16, uuid=U(i),
@@ -1092,6 +1129,10 @@ def script_bytes(g, n, out):
                 ir.save_protobuf_file(buf)
                 ir2 = g.IR.load_protobuf_file(io.BytesIO(buf.getvalue()))
                 b2 = ir2.get_by_uuid(bi.uuid)
+                need(b2 is not None, "C19/scale:interval-lost-by-save-load",
+                     where)
+                if b2 is None:
+                    continue
                 need(b2.initialized_size == len(stored)
                      and bytes(b2.contents) == stored and b2.size == bi.size,
                      "C19/scale:save-load-changes-stored-bytes",
